@@ -92,7 +92,7 @@ pub fn run(tier: Tier) -> i32 {
         let bl = uniq(bl);
         let mut buf = vec![0xA5u8; *bl.last().unwrap()];
         // SameAtMax: the label was just sent but the consecutive-re-use limit is reached, so no substitution applies
-        for prior in [Prior::Fresh, Prior::Disabled, Prior::SameThenDisabled, Prior::Other, Prior::SameAtMax] {
+        for prior in [Prior::Fresh, Prior::Disabled, Prior::SameThenDisabled, Prior::Other, Prior::SameAtMax, Prior::OtherThenRefused] {
             if matches!(prior, Prior::SameThenDisabled | Prior::SameAtMax) && !l.is_addr() {
                 continue;
             }
